@@ -27,11 +27,12 @@ StepLine(e)  ==
        /\ (IF st[3] = 1 /\ DOMAIN st[6] # {} THEN Report(e.case, SeqProtoFails(st[2], st[6]), [s |-> e.s, e |-> e.e, w |-> st[1], what |-> "pixels_iterator_protocol"]) ELSE TRUE)
        /\ DriftThick(e, st)
 StepLongLine(e) == e.ev = "longline" /\ Report(e.case, LongLineFails(e), [s |-> e.s, e |-> e.e, np |-> e.np])
+StepHugeStroke(e) == e.ev = "hugestroke" /\ Report(e.case, HugeStrokeFails(e), [s |-> e.s, e |-> e.e, w |-> e.w, n |-> e.n, dup |-> e.dup])
 StepXLong(e) == e.ev = "xlong" /\ Report(e.case, XLongFails(e), [s |-> e.s, e |-> e.e, np |-> e.np, last |-> e.last, samples |-> e.samples])
 \* a library call of this case panicked: the property promises a result for every input of its domain
 StepPanic(e) == e.ev = "panic" /\ Report(e.case, {"library_call_panicked"}, [msg |-> e.msg, loc |-> e.loc])
 Next == /\ l <= NRec
-        /\ LET e == Rec[l] IN StepCase(e) \/ StepLine(e) \/ StepLongLine(e) \/ StepXLong(e) \/ StepPanic(e)
+        /\ LET e == Rec[l] IN StepCase(e) \/ StepLine(e) \/ StepLongLine(e) \/ StepXLong(e) \/ StepHugeStroke(e) \/ StepPanic(e)
         /\ l' = l + 1
 Spec == Init /\ [][Next]_l
 Done == IF TLCGet("stats").diameter = NRec + 1
